@@ -5,7 +5,8 @@ from vlib import Case, hx
 
 HARNESS = "sim_driver"
 LEAN_MODULES = ["ViaProofs.C19"]
-REQUIRED_THEOREMS = []
+LEMMA_MODULES = ['ViaProofs.ConnLemmas', 'ViaProofs.C09']
+REQUIRED_THEOREMS = ['Via.C19_invariant', 'Via.C19_close_notify_after_write', 'Via.C19_shutdown_keeps_socket_open']
 LEVEL = "proof"
 TRUSTED_BASE = S.SIM_TRUSTED
 ASSUMPTIONS = S.SIM_ASSUMPTIONS
@@ -76,3 +77,7 @@ def search(rng, binaries, log):
         if f and not classify(c, f, il, FINDINGS_ALL):
             return (c, f, il)
     return None
+
+
+def extra_checks(tier, rng, binaries, log):
+    return S.net_bigbody_checks(tier, binaries, log, ['net_driver_tls'], PROP)
